@@ -45,7 +45,7 @@ EmitO == PrintT(<<"REPLAY", ToJson([p |-> case.p, S |-> case.S, accept |-> InSet
 CellFields == <<"fld", "b", "cr", "ll", "nc", "w", "fold", "rem", "bc", "bd", "end">>
 CellVals(f) == CASE f = "fld" -> Flds
                  [] f = "b" -> {2, 4, 8, 16, 32, 64, 128}
-                 [] f = "cr" -> {96, 124, 128}
+                 [] f = "cr" -> {64, 96, 124, 128}
                  [] f = "ll" -> {3, 4, 5, 6, 8, 10, 11, 13, 16, 20, 22}     \* trace length 2^ll
                  [] f = "nc" -> {1, 2, 3, 10, 100, 1000}                     \* constraints
                  [] f = "w" -> {1, 2, 5, 40, 100, 254}                       \* trace width
@@ -76,7 +76,10 @@ FixedCells ==
     rem |-> Pick(CellVals("rem"), j), bc |-> j % 3, bd |-> (j \div 3) % 3, end |-> 0] : j \in 1..Len(FldSeq)}
   \cup {[fld |-> "f62", b |-> 2, cr |-> 96, ll |-> 3, nc |-> 1, w |-> 1, fold |-> 2, rem |-> 0, bc |-> 0, bd |-> 0, end |-> 0],
         [fld |-> "f128", b |-> 128, cr |-> 128, ll |-> 22, nc |-> 1000, w |-> 255, fold |-> 16, rem |-> 255, bc |-> 1, bd |-> 2, end |-> 0],
-        [fld |-> "f64", b |-> 4, cr |-> 128, ll |-> 20, nc |-> 100, w |-> 2, fold |-> 2, rem |-> 127, bc |-> 0, bd |-> 0, end |-> 0]}
+        [fld |-> "f64", b |-> 4, cr |-> 128, ll |-> 20, nc |-> 100, w |-> 2, fold |-> 2, rem |-> 127, bc |-> 0, bd |-> 0, end |-> 0],
+        \* a hasher with collision resistance 64 (custom Hasher): the cap binds below 80 bits of query security
+        [fld |-> "f128", b |-> 8, cr |-> 64, ll |-> 10, nc |-> 10, w |-> 2, fold |-> 4, rem |-> 7, bc |-> 0, bd |-> 0, end |-> 0],
+        [fld |-> "f64", b |-> 16, cr |-> 64, ll |-> 12, nc |-> 10, w |-> 2, fold |-> 2, rem |-> 0, bc |-> 1, bd |-> 1, end |-> 0]}
 InitF == case \in FixedCells
 SpecF == InitF /\ [][UNCHANGED case]_case
 EmitF == PrintT(<<"REPLAY", ToJson(WithField(case))>>)
